@@ -53,8 +53,7 @@ static std::optional<Failure> check_row(Run &R, size_t i) {
 
 static std::optional<Failure> check_absent(Run &R, const Bytes &label) {
     Case cs; cs.i("kind", 1).b("label", label); g_case = cs.str();
-    if (label.empty() || T.puny.find(label)) return std::nullopt;
-    for (unsigned char c : label) if (!(isalnum(c) || c == '-')) return std::nullopt;
+    if (label.empty() || T.puny.find(label) || label.find('\0') != Bytes::npos) return std::nullopt;   // any byte string that is not a row
     int got = part0(A, TB, VP_TLD, label); R.eval();
     R.nontrivial(hashs(label, 1)); R.count("absent-label");
     if (got != -C->E_TLD_INVALID) return Failure{"absent-label-found", cs.str(), "is_tld('" + show(label) + "') = " + std::to_string(got) + " but the CSV has no such domain"};
@@ -67,6 +66,9 @@ static void stage_rows(Run &R) {
         auto f = check_row(R, i); if (f && !R.fail(*f)) return;
         const Bytes &t = T.puny.rows[i].domain;
         for (size_t n = 1; n < t.size(); n++) { auto g = check_absent(R, t.substr(0, n)); if (g && !R.fail(*g)) return; g = check_absent(R, t.substr(n)); if (g && !R.fail(*g)) return; }
+        // look-alikes: one byte of the row changed by one bit (case bit of a non-letter, high bit, low bits), or replaced by a control / space
+        for (size_t n = 0; n < t.size(); n++) for (int bit : {0x20, 0x80, 0x40, 0x01, 0x10}) { Bytes u = t; u[n] = (char) (u[n] ^ bit); if (u[n] == 0) continue; auto g = check_absent(R, u); if (g && !R.fail(*g)) return; }
+        for (const char *x : {" ", "\t", ".", "\r", "\n", "@", "\x7f"}) { auto g = check_absent(R, t + x); if (g && !R.fail(*g)) return; g = check_absent(R, x + t); if (g && !R.fail(*g)) return; }
         for (char c : {'a', 'z', '0', '-'}) { auto g = check_absent(R, t + Bytes(1, c) + "a"); if (g && !R.fail(*g)) return; g = check_absent(R, Bytes("a") + Bytes(1, c) + t); if (g && !R.fail(*g)) return; g = check_absent(R, t + Bytes(1, c)); if (g && !R.fail(*g)) return; }
     }
     if (R.a.worker == 0) {
